@@ -62,8 +62,9 @@ func raceEntries() []raceEntry {
 }
 
 // raceGlobalLevel: logger level L fixed; one goroutine alternates SetGlobalLevel(A) / SetGlobalLevel(B);
-// G goroutines send a fixed number of events through every entry.  The global level is A or B at every
-// instant of the run, so
+// G goroutines send events through every entry, pass after pass (at least a fixed number of passes, more
+// while they have not yet seen the global level change often enough).  The global level is A or B at
+// every instant of the run, so
 //   - an event with level < L, or < min(A,B), is filtered under every value: never written, and inert
 //     (no hook, no Func / MsgFunc callback, no object marshaler);
 //   - an event with level >= L and >= max(A,B) is admitted under every value: written exactly once per
@@ -124,7 +125,7 @@ func raceGlobalLevel(c *Ctx) {
 				}()
 				var seenAll int64
 				passes := make([]int64, emitters)
-								for g := 0; g < emitters; g++ {
+				for g := 0; g < emitters; g++ {
 					wg.Add(1)
 					go func(g int) {
 						defer wg.Done()
@@ -242,6 +243,8 @@ func raceGlobalLevel(c *Ctx) {
 var namedLevels = []zerolog.Level{zerolog.TraceLevel, zerolog.DebugLevel, zerolog.InfoLevel, zerolog.WarnLevel, zerolog.ErrorLevel,
 	zerolog.FatalLevel, zerolog.PanicLevel, zerolog.NoLevel, zerolog.Disabled}
 
+var defaultLevelNames = []string{"trace", "debug", "info", "warn", "error", "fatal", "panic", "", "disabled"}
+
 type nameCfg struct {
 	Name  string   `json:"naming"`
 	Names []string `json:"names_trace_debug_info_warn_error_fatal_panic_nolevel_disabled"`
@@ -250,32 +253,86 @@ type nameCfg struct {
 // the namings: each gives the nine named levels a text; every other level keeps its decimal text
 var levelNamings = []nameCfg{
 	{"defaults in upper case", []string{"TRACE", "DEBUG", "INFO", "WARN", "ERROR", "FATAL", "PANIC", "", "DISABLED"}},
+	{"defaults in mixed case", []string{"Trace", "dEBUG", "InFo", "warN", "ErroR", "fAtAl", "PaNiC", "", "Disabled"}},
 	{"syslog severities", []string{"TRACE", "DEBUG", "INFORMATIONAL", "WARNING", "ERR", "CRIT", "EMERG", "NONE", "OFF"}},
 	{"single letters", []string{"t", "d", "i", "w", "e", "f", "p", "-", "x"}},
 	{"the default names rotated by one level", []string{"debug", "info", "warn", "error", "fatal", "panic", "", "disabled", "trace"}},
+	{"the default names swapped in pairs", []string{"debug", "trace", "warn", "info", "fatal", "error", "panic", "disabled", ""}},
 	{"prefixed", []string{"lvl:trace", "lvl:debug", "lvl:info", "lvl:warn", "lvl:error", "lvl:fatal", "lvl:panic", "lvl:none", "lvl:disabled"}},
 	{"non-ASCII", []string{"Spur", "Fehlersuche", "Auskunft", "Warnung", "Störung", "tödlich", "Panik", "ohne", "aus"}},
 	{"names that look like other levels' numbers", []string{"L-1", "L0", "L1", "L2", "L3", "L4", "L5", "L6", "L7"}},
 	{"only one level renamed", []string{"trace", "debug", "notice", "warn", "error", "fatal", "panic", "", "disabled"}},
+	{"only Disabled renamed", []string{"trace", "debug", "info", "warn", "error", "fatal", "panic", "", "off"}},
+	{"Disabled answers the empty text, NoLevel a word", []string{"trace", "debug", "info", "warn", "error", "fatal", "panic", "none", ""}},
+	{"Trace answers the empty text, NoLevel a word", []string{"", "debug", "info", "warn", "error", "fatal", "panic", "nolevel", "disabled"}},
+	{"every named level as its own number", []string{"-1", "0", "1", "2", "3", "4", "5", "6", "7"}},
+	{"the named levels' numbers in reverse", []string{"7", "6", "5", "4", "3", "2", "1", "0", "-1"}},
+	{"the named levels' numbers rotated, with a sign and zeros", []string{"+0", "01", "2", "3", "4", "5", "6", "7", "-01"}},
+	{"names with blanks", []string{" trace", "debug ", "in fo", "warn\t", "error", "fatal", "panic", " ", "disabled"}},
+	// not injective: several levels share a text (up to case), or a name is the decimal text of a level
+	// that has no name.  Only the text round trip is demanded of these.
+	{"every named level answers the empty text", []string{"", "", "", "", "", "", "", "", ""}},
+	{"two groups of levels share a name", []string{"low", "low", "info", "warn", "high", "high", "high", "", "disabled"}},
+	{"names that differ in case only", []string{"x", "X", "info", "Info", "error", "fatal", "panic", "", "disabled"}},
+	{"a name is the number of an unnamed level", []string{"trace", "debug", "info", "42", "error", "-128", "panic", "", "disabled"}},
+	{"NoLevel and Disabled both answer the empty text", []string{"trace", "debug", "info", "warn", "error", "fatal", "panic", "", ""}},
 }
 
-// namingAdmissible: the round trip can only be demanded when the naming is injective up to case over all
-// 256 levels and no name reads as a decimal level.
-func namingAdmissible(n nameCfg) bool {
-	seen := map[string]bool{}
-	for _, s := range n.Names {
-		f := strings.ToLower(s)
-		if seen[f] {
-			return false
+// namingText: the text of level l under the naming
+func namingText(names []string, l int) string {
+	for i, lv := range namedLevels {
+		if int(lv) == l {
+			return names[i]
 		}
-		seen[f] = true
-		if _, err := strconv.Atoi(s); err == nil {
+	}
+	return strconv.Itoa(l)
+}
+
+// namingInjective: the 256 levels have pairwise different texts up to case (strings.EqualFold).  Only
+// then can a text be demanded to read back as the level it came from.
+func namingInjective(names []string) bool {
+	if len(names) != len(namedLevels) {
+		return false
+	}
+	texts := make([]string, 256)
+	for l := -128; l <= 127; l++ {
+		texts[l+128] = namingText(names, l)
+	}
+	for i, lv := range namedLevels {
+		for l := -128; l <= 127; l++ {
+			if l != int(lv) && strings.EqualFold(names[i], texts[l+128]) {
+				return false
+			}
+		}
+	}
+	return true // the decimal texts of two different unnamed levels never coincide
+}
+
+func isASCII(s string) bool {
+	for i := 0; i < len(s); i++ {
+		if s[i] >= 0x80 {
 			return false
 		}
 	}
-	return len(n.Names) == len(namedLevels)
+	return true
 }
 
+func namingCoq(names []string) string {
+	f := []string{"n_trace", "n_debug", "n_info", "n_warn", "n_error", "n_fatal", "n_panic", "n_nolevel", "n_disabled"}
+	xs := make([]string, len(f))
+	for i := range f {
+		xs[i] = f[i] + " := " + CoqBytes([]byte(names[i]))
+	}
+	return "{| " + strings.Join(xs, "; ") + " |}"
+}
+
+// customLevelNames: for each naming, installed (1) as a replaced LevelFieldMarshalFunc and (2) through the
+// Level*Value variables (NoLevel and Disabled have no variable and keep "" / "disabled"):
+//   - injective naming: MarshalText of each of the 256 levels reads back (UnmarshalText, ParseLevel) as that
+//     level; under (2) String() does too;
+//   - any naming: the text reads back without error as a level whose text is this text (up to case);
+//   - ParseLevel on the names, their case variants, the default names and numbers, against
+//     Misc/LevelNames.v parse_level_with (ASCII only).
 func customLevelNames(c *Ctx) {
 	oldF := zerolog.LevelFieldMarshalFunc
 	oldV := []string{zerolog.LevelTraceValue, zerolog.LevelDebugValue, zerolog.LevelInfoValue, zerolog.LevelWarnValue, zerolog.LevelErrorValue, zerolog.LevelFatalValue, zerolog.LevelPanicValue}
@@ -285,8 +342,23 @@ func customLevelNames(c *Ctx) {
 			oldV[0], oldV[1], oldV[2], oldV[3], oldV[4], oldV[5], oldV[6]
 	}
 	defer restore()
-	checked := 0
-	roundTrip := func(how string, n nameCfg, viaString bool) {
+	checked, injective, modelCases := 0, 0, 0
+	errKind := func(err error) int {
+		switch {
+		case err == nil:
+			return 0
+		case strings.HasPrefix(err.Error(), "Out-Of-Bounds"):
+			return 2
+		}
+		return 1
+	}
+	// sweep: the configuration is installed; names = the effective texts of the nine named levels
+	sweep := func(how string, n nameCfg, names []string, viaString bool) {
+		inj := namingInjective(names)
+		if inj {
+			injective++
+		}
+		cfg := map[string]interface{}{"customisation": how, "naming": n, "effective_names": names, "injective_up_to_case": inj}
 		for l := -128; l <= 127; l++ {
 			lv := zerolog.Level(l)
 			mt, merr := lv.MarshalText()
@@ -294,13 +366,24 @@ func customLevelNames(c *Ctx) {
 			uerr := back.UnmarshalText(mt)
 			p, perr := zerolog.ParseLevel(string(mt))
 			checked++
-			cs := map[string]interface{}{"level": l, "customisation": how, "naming": n}
-			if merr != nil || uerr != nil || perr != nil || int(back) != l || int(p) != l {
-				c.Violate(Violation{Key: "level-text-roundtrip", Monitor: "level-roundtrip-custom-names",
-					Desc: fmt.Sprintf("%s = %q: Level(%d).MarshalText() = %q (%v); UnmarshalText of it -> %d (%v); ParseLevel of it -> %d (%v)", how, n.Name, l, mt, merr, back, uerr, p, perr),
-					Case: cs, Observed: map[string]interface{}{"text": string(mt), "unmarshal": int(back), "parse": int(p)}, Expected: l})
+			cs := map[string]interface{}{"level": l, "configuration": cfg}
+			if inj {
+				if merr != nil || uerr != nil || perr != nil || int(back) != l || int(p) != l {
+					c.Violate(Violation{Key: "level-text-roundtrip", Monitor: "level-roundtrip-custom-names",
+						Desc: fmt.Sprintf("%s = %q: Level(%d).MarshalText() = %q (%v); UnmarshalText of it -> %d (%v); ParseLevel of it -> %d (%v)", how, n.Name, l, mt, merr, back, uerr, p, perr),
+						Case: cs, Observed: map[string]interface{}{"text": string(mt), "unmarshal": int(back), "parse": int(p)}, Expected: l})
+				}
+			} else {
+				// the text must read back, without error, as a level that has this text
+				bt, _ := back.MarshalText()
+				pt, _ := p.MarshalText()
+				if merr != nil || uerr != nil || perr != nil || !strings.EqualFold(string(bt), string(mt)) || !strings.EqualFold(string(pt), string(mt)) {
+					c.Violate(Violation{Key: "level-text-roundtrip", Monitor: "level-text-form-roundtrip",
+						Desc: fmt.Sprintf("%s = %q: Level(%d).MarshalText() = %q (%v); UnmarshalText of it -> %d (%v) whose text is %q; ParseLevel of it -> %d (%v) whose text is %q", how, n.Name, l, mt, merr, back, uerr, bt, p, perr, pt),
+						Case: cs, Observed: map[string]interface{}{"text": string(mt), "unmarshal": int(back), "unmarshal_text": string(bt), "parse": int(p), "parse_text": string(pt)}, Expected: string(mt)})
+				}
 			}
-			if viaString {
+			if viaString && inj {
 				s := lv.String()
 				q, qerr := zerolog.ParseLevel(s)
 				if qerr != nil || int(q) != l {
@@ -311,14 +394,47 @@ func customLevelNames(c *Ctx) {
 			}
 		}
 		c.Count("names "+how+" "+n.Name, true)
+		// ParseLevel against the model
+		ascii := true
+		for _, s := range names {
+			ascii = ascii && isASCII(s)
+		}
+		if !ascii {
+			return // non-ASCII folding is outside the model (Misc/Level.v equal_fold)
+		}
+		qs := []string{}
+		seen := map[string]bool{}
+		add := func(s string) {
+			if !seen[s] && isASCII(s) {
+				seen[s] = true
+				qs = append(qs, s)
+			}
+		}
+		for _, s := range names {
+			add(s)
+			add(strings.ToUpper(s))
+			add(strings.ToLower(s))
+		}
+		for _, s := range defaultLevelNames {
+			add(s)
+		}
+		for _, s := range []string{"-2", "-1", "0", "1", "3", "6", "7", "8", "42", "127", "128", "-128", "-129", "+7", "007", "x", "none", "off"} {
+			add(s)
+		}
+		for _, s := range qs {
+			p, err := zerolog.ParseLevel(s)
+			obs := fmt.Sprintf("OParse None %d", errKind(err))
+			if err == nil {
+				obs = fmt.Sprintf("OParse (Some %s) 0", CoqZ(int64(p)))
+			}
+			c.AddCase(fmt.Sprintf("(CParseNamed %s %s, %s)", namingCoq(names), CoqBytes([]byte(s)), obs),
+				map[string]interface{}{"configuration": cfg, "parse": s, "ok": err == nil, "level": int(p)})
+			modelCases++
+		}
 	}
 	for _, n := range levelNamings {
-		if !namingAdmissible(n) {
-			c.Note("level naming %q skipped: not injective up to case, or numeric", n.Name)
-			continue
-		}
 		// (1) LevelFieldMarshalFunc replaced (MarshalText uses it; String() keeps the default names, so only
-		// the MarshalText form is demanded to round-trip)
+		// the MarshalText form is looked at)
 		names := map[zerolog.Level]string{}
 		for i, lv := range namedLevels {
 			names[lv] = n.Names[i]
@@ -329,25 +445,19 @@ func customLevelNames(c *Ctx) {
 			}
 			return strconv.Itoa(int(l))
 		}
-		roundTrip("LevelFieldMarshalFunc", n, false)
+		sweep("LevelFieldMarshalFunc", n, n.Names, false)
 		restore()
 		// (2) the Level*Value variables reassigned, LevelFieldMarshalFunc left at its default (String()):
-		// both String() and MarshalText round-trip.  NoLevel / Disabled have no variable: they keep "" / "disabled",
-		// so a naming is used here only if its first seven names avoid those two.
-		ok := true
-		for _, s := range n.Names[:7] {
-			if s == "" || strings.EqualFold(s, "disabled") {
-				ok = false
-			}
-		}
-		if ok {
-			zerolog.LevelTraceValue, zerolog.LevelDebugValue, zerolog.LevelInfoValue, zerolog.LevelWarnValue, zerolog.LevelErrorValue, zerolog.LevelFatalValue, zerolog.LevelPanicValue =
-				n.Names[0], n.Names[1], n.Names[2], n.Names[3], n.Names[4], n.Names[5], n.Names[6]
-			roundTrip("Level*Value variables", n, true)
-			restore()
-		}
+		// both String() and MarshalText are looked at.  NoLevel / Disabled have no variable: they keep "" / "disabled".
+		eff := append(append([]string{}, n.Names[:7]...), "", "disabled")
+		zerolog.LevelTraceValue, zerolog.LevelDebugValue, zerolog.LevelInfoValue, zerolog.LevelWarnValue, zerolog.LevelErrorValue, zerolog.LevelFatalValue, zerolog.LevelPanicValue =
+			eff[0], eff[1], eff[2], eff[3], eff[4], eff[5], eff[6]
+		sweep("Level*Value variables", n, eff, true)
+		restore()
 	}
 	c.Res.Evaluations += checked
 	c.Res.ExtraCoverage["custom_level_name_roundtrips"] = checked
 	c.Res.ExtraCoverage["custom_level_namings"] = len(levelNamings)
+	c.Res.ExtraCoverage["custom_level_configurations_injective"] = injective
+	c.Res.ExtraCoverage["custom_level_parse_model_cases"] = modelCases
 }
